@@ -337,16 +337,30 @@ class Run(RunBase):
                     how = rng.random()
                     if how < 0.5 and len(mp[c]) >= 2:
                         mp[c][0] = mp[c][1]            # duplicate entry
+                    elif how < 0.65 and len(mp[c]) >= 2:
+                        # entries that are distinct as numbers but alias as list indices: k together with k - n
+                        a, b = rng.sample(range(len(mp[c])), 2)
+                        mp[c][b] = mp[c][a] - len(mp[c])
                     elif how < 0.8:
                         mp[c][rng.randrange(len(mp[c]))] = len(mp[c]) + rng.randrange(2)  # out of range
                     else:
                         mp[c] = mp[c][:-1]            # too short
             return {"op": "reorder", "obj": k, "map": mp}
         if x < 0.65:
-            return {"op": "imul", "obj": k, "g": rng.randrange(len(self.glist))}
+            op = {"op": "imul", "obj": k, "g": rng.randrange(len(self.glist))}
+            if rng.random() < 0.35:
+                op["g2"] = rng.randrange(len(self.glist))
+            if rng.random() < 0.25:
+                op["inv"] = 1
+            return op
         if x < 0.71:
-            return {"op": "mul", "obj": k, "g": rng.randrange(len(self.glist)), "side": rng.choice("lr"),
-                    "to": rng.randrange(MAXOBJ)}
+            op = {"op": "mul", "obj": k, "g": rng.randrange(len(self.glist)), "side": rng.choice("lr"),
+                  "to": rng.randrange(MAXOBJ)}
+            if rng.random() < 0.35:
+                op["g2"] = rng.randrange(len(self.glist))
+            if rng.random() < 0.25:
+                op["inv"] = 1
+            return op
         if x < 0.78:
             return {"op": "copy", "obj": k, "to": rng.randrange(MAXOBJ),
                     "how": rng.choice(("copy", "copy", "copy", "deepcopy", "pickle"))}
@@ -488,14 +502,28 @@ class Run(RunBase):
             return "skip"
         # model of the documented semantics: new[c][i] = old[c][map[c][i]]; must be a permutation
         new, bad = [], None
+        negative = False
         for l, p in zip(m.order, mp):
-            if len(p) < len(l) or any((not isinstance(j, int)) or j < 0 or j >= len(l) for j in p[:len(l)]):
+            if len(p) < len(l) or any((not isinstance(j, int)) or j < -len(l) or j >= len(l) for j in p[:len(l)]):
                 bad = "range"
                 break
-            nl = [l[p[i]] for i in range(len(l))]
+            negative = negative or any(j < 0 for j in p[:len(l)])
+            nl = [l[p[i]] for i in range(len(l))]      # the documented formula, with Python's list indexing
             if sorted(nl) != sorted(l):
                 bad = bad or "dup"
             new.append(nl)
+        if bad is None and negative:
+            # a proper permutation written with negative indices: the documented formula accepts it, an
+            # implementation that validates 0 <= index < n may refuse it; both are fine -- if it is refused the
+            # object must be unchanged, if it is accepted the formula applies
+            try:
+                sup.reorder(mp)
+            except (ValueError, IndexError):
+                self.check_all("after refused negative-index reorder")
+                return "refused"
+            m.order = new
+            self.probes["negative-index-permutation-accepted"] += 1
+            return "ok"
         if bad == "range":
             return self.expect_reject(k, lambda: sup.reorder(mp), (ValueError, IndexError), "reorder")
         if bad == "dup":
@@ -516,9 +544,22 @@ class Run(RunBase):
         m2.order = [[im[i] for i in l] for l in m.order]
         return m2
 
+    def _groupop(self, op):
+        """The operation of an imul/mul op: a member of sup.G, or a TEMPORARY built from members (a product or an
+        inverse -- the group is closed, so these are operations of the supercell too, but they are new objects that
+        die right after use)."""
+        g = self.glist[op["g"] % len(self.glist)]
+        if op.get("g2") is not None:
+            g = g * self.glist[op["g2"] % len(self.glist)]
+            self.probes["temporary-groupop-product"] += 1
+        if op.get("inv"):
+            g = g.inv()
+            self.probes["temporary-groupop-inverse"] += 1
+        return g
+
     def op_imul(self, op):
         k = op["obj"] % len(self.objs)
-        g = self.glist[op["g"] % len(self.glist)]
+        g = self._groupop(op)
         sup = self.objs[k]
         sup *= g
         if sup is not self.objs[k]:
@@ -530,7 +571,7 @@ class Run(RunBase):
 
     def op_mul(self, op):
         k = op["obj"] % len(self.objs)
-        g = self.glist[op["g"] % len(self.glist)]
+        g = self._groupop(op)
         sup = self.objs[k]
         new = g * sup if op["side"] == "l" else sup * g
         if new is sup:
